@@ -176,6 +176,86 @@ Definition decode_seq (shs : list shape) (bs : list N) : option (list value * li
   | _ => None
   end.
 
+(* ------------------------------------------------ reading into an existing object *)
+(* operator>> does not create its result: it reads INTO the object the caller passes, which
+   already holds some value [old] (stale content of a reused or pre-filled destination).
+   [get_into] makes that destination explicit and mirrors what each overload does with it:
+     POD         memcpy of sizeof(T) bytes over the object
+     string      rh.resize(sz) (keeps a prefix of the old characters / pads), then read()
+                 overwrites the sz characters
+     vector      rh.resize(sz) (keeps a prefix of the old elements / appends value-initialised
+                 ones), then  buf >> rh[i]  reads into each of those elements in turn
+     array       the destination is reset to a fresh block of the announced size *)
+Definition old_bytes (v : value) : list N :=
+  match v with VRaw bs => bs | VStr s => s | VArr _ _ bs => bs | VVec _ => [] end.
+Definition old_elems (v : value) : list value :=
+  match v with VVec vs => vs | _ => [] end.
+
+(* std::vector / std::string ::resize(n) *)
+Definition resize_list {A} (l : list A) (n : nat) (dflt : A) : list A :=
+  firstn n l ++ repeat dflt (n - length l).
+
+(* memcpy of [bs] over the beginning of [dst] *)
+Definition overwrite (dst bs : list N) : list N := bs ++ skipn (length bs) dst.
+
+(* T() *)
+Definition default_value (sh : shape) : value :=
+  match sh with
+  | SRaw n => VRaw (repeat 0%N (Z.to_nat n))
+  | SStr => VStr []
+  | SVec _ => VVec []
+  | SArr e => VArr e 0 []
+  end.
+
+(* for (i < sz) buf >> rh[i]   over the elements the destination holds after the resize *)
+Definition rep_into (g : value -> reader -> rres value) : list value -> reader -> rres (list value) :=
+  fix loop (olds : list value) (r : reader) : rres (list value) :=
+    match olds with
+    | [] => ROk [] r
+    | o :: os => rbind (g o r) (fun v r1 => rbind (loop os r1) (fun vs r2 => ROk (v :: vs) r2))
+    end.
+
+Fixpoint get_into (sh : shape) (old : value) (r : reader) {struct sh} : rres value :=
+  match sh with
+  | SRaw n =>
+      rbind (rd_read r true n) (fun bs r1 =>
+      ROk (VRaw (overwrite (firstn (Z.to_nat n) (old_bytes old)) bs)) r1)
+  | SStr =>
+      rbind (rd_read r true 8) (fun szb r1 =>
+      let sz := le_val szb in
+      let s0 := resize_list (old_bytes old) (Z.to_nat sz) 0%N in
+      rbind (rd_read r1 true sz) (fun s r2 => ROk (VStr (overwrite s0 s)) r2))
+  | SVec sh' =>
+      rbind (rd_read r true 8) (fun szb r1 =>
+      let olds := resize_list (old_elems old) (Z.to_nat (le_val szb)) (default_value sh') in
+      rbind (rep_into (get_into sh') olds r1) (fun vs r2 => ROk (VVec vs) r2))
+  | SArr esz =>
+      rbind (rd_read r true 8) (fun szb r1 =>
+      let cnt := le_val szb in
+      rbind (rd_read r1 true (wrap (esz * cnt))) (fun bs r2 => ROk (VArr esz cnt bs) r2))
+  end.
+
+(* the rewrite that was seeded: reserve(sz), then push_back of freshly read elements - the old
+   elements stay in front *)
+Definition get_into_vec_append (sh' : shape) (old : value) (r : reader) : rres value :=
+  rbind (rd_read r true 8) (fun szb r1 =>
+  rbind (rep_get (get sh') (Z.to_nat (le_val szb)) r1) (fun vs r2 => ROk (VVec (old_elems old ++ vs)) r2)).
+
+Fixpoint get_into_seq (shs : list shape) (olds : list value) (r : reader) : rres (list value) :=
+  match shs with
+  | [] => ROk [] r
+  | sh :: shs' =>
+      let o := match olds with o :: _ => o | [] => default_value sh end in
+      rbind (get_into sh o r) (fun v r1 =>
+      rbind (get_into_seq shs' (tl olds) r1) (fun vs r2 => ROk (v :: vs) r2))
+  end.
+
+Definition read_into (sh : shape) (old : value) (bs : list N) : option (value * list N) :=
+  match get_into sh old (reader_of bs) with
+  | ROk v r => Some (v, skipn (Z.to_nat (r_cur r)) bs)
+  | _ => None
+  end.
+
 (* ---------------------------------------------------------------- BufferWriter *)
 (* OwnedArray::resize(n, 0) *)
 Definition resize (buf : list N) (n : Z) : list N :=
